@@ -1,6 +1,8 @@
 \* Project.tla, INTENDED DESIGN (Dev = {}), thorough tier: as MC_Project.cfg plus edit records with a directive
 \* doc comment / without doc comment and a second initial schema (f1 and g already in a.graphqls); histories <= 6.
-\* Measured: 1 911 515 distinct / 7 020 334 generated states, depth 7, 5 min 40 s with 4 workers (loaded machine).
+\* Root struct customisations {rf, re}.
+\* Measured: 3 065 659 distinct / 11 801 948 generated states, depth 7, 4 min 26 s with 4 workers (before the root
+\* struct: 1 911 515 / 7 020 334).
 INIT Init
 NEXT Next
 CONSTANTS
